@@ -2,14 +2,15 @@
 import itertools
 import random
 from vf import Case
-from gen import constants
+from gen import constants, cloops
 from props.regcommon import SIZE
 
 ID = "C04"
 DRIVER = "drv_regtable"
 HARNESS = "h_regtable"
 THOROUGH_SEEDS = 2
-GEN = [constants.gen]
+GEN = [constants.gen, cloops.regs_gen]      # tie A: the address arithmetic of registers/core.c, translated from clang's AST
+tie_modules = cloops.regs_tie_modules
 TIE = ['Ufw.Tie.RegTable']
 RULE = ("exhaustive small scope: 0-3 areas over a base/size grid (adjacent, overlapping by one atom, reversed order, empty area between "
         "populated ones, areas without write callback, skip-defaults areas, callback-backed areas); 0-4 registers of sizes 1/2/4 atoms at every "
